@@ -63,6 +63,7 @@ package ggql
 //@   check panic {C03}
 //@   requires root != nil && field != nil
 //@   requires[object-present] obj != nil
+//@   requires[reflection-last]{C02} !is(obj, Resolver) && root.AnyResolver == nil
 //@   requires t != nil ==> ptrval(t) != 0
 //@   requires[unlocked] onlyRegistryLock(root)
 //@   assumes errsFresh(ea)
